@@ -132,55 +132,75 @@ def b64 (b : Bytes) : Str := Rtsp.B64Std.encode b
 
 def boolStr (b : Bool) : Str := if b then b!"1" else b!"0"
 
+def fmtpH265 (vps sps pps : Option Bytes) (mdd : Nat) : List (Str × Str) :=
+  (if mdd ≠ 0 then [(b!"sprop-max-don-diff", dec mdd)] else [])
+  ++ (match pps with | some b => [(b!"sprop-pps", b64 b)] | none => [])
+  ++ (match sps with | some b => [(b!"sprop-sps", b64 b)] | none => [])
+  ++ (match vps with | some b => [(b!"sprop-vps", b64 b)] | none => [])
+
+def h264ProfileLevelId (sps : Option Bytes) : List (Str × Str) :=
+  match sps with
+  | some s => if s.length ≥ 4 then [(b!"profile-level-id", hexEncodeUpper ((s.drop 1).take 3))] else []
+  | none => []
+
+def h264ParameterSets (sps pps : Option Bytes) : List (Str × Str) :=
+  match sps, pps with
+  | some s, some p => [(b!"sprop-parameter-sets", b64 s ++ 44 :: b64 p)]
+  | some s, none => [(b!"sprop-parameter-sets", b64 s)]
+  | none, some p => [(b!"sprop-parameter-sets", b64 p)]
+  | none, none => []
+
+def fmtpH264 (sps pps : Option Bytes) (pm : Nat) : List (Str × Str) :=
+  (if pm ≠ 0 then [(b!"packetization-mode", dec pm)] else [])
+  ++ h264ProfileLevelId sps ++ h264ParameterSets sps pps
+
+def fmtpMpeg4video (plid : Nat) (cfg : Option Bytes) : List (Str × Str) :=
+  (match cfg with | some c => [(b!"config", hexEncodeUpper c)] | none => [])
+  ++ [(b!"profile-level-id", dec plid)]
+
+def fmtpOpus (ch : Nat) : List (Str × Str) :=
+  if ch ≤ 2 then [(b!"sprop-stereo", if ch = 2 then b!"1" else b!"0")]
+  else if ch = 3 then [(b!"channel_mapping", b!"0,2,1"), (b!"coupled_streams", b!"1"), (b!"num_streams", b!"2"), (b!"sprop-maxcapturerate", b!"48000")]
+  else if ch = 4 then [(b!"channel_mapping", b!"0,1,2,3"), (b!"coupled_streams", b!"2"), (b!"num_streams", b!"2"), (b!"sprop-maxcapturerate", b!"48000")]
+  else if ch = 5 then [(b!"channel_mapping", b!"0,4,1,2,3"), (b!"coupled_streams", b!"2"), (b!"num_streams", b!"3"), (b!"sprop-maxcapturerate", b!"48000")]
+  else if ch = 6 then [(b!"channel_mapping", b!"0,4,1,2,3,5"), (b!"coupled_streams", b!"2"), (b!"num_streams", b!"4"), (b!"sprop-maxcapturerate", b!"48000")]
+  else if ch = 7 then [(b!"channel_mapping", b!"0,4,1,2,3,5,6"), (b!"coupled_streams", b!"3"), (b!"num_streams", b!"4"), (b!"sprop-maxcapturerate", b!"48000")]
+  else [(b!"channel_mapping", b!"0,6,1,4,5,2,3,7"), (b!"coupled_streams", b!"3"), (b!"num_streams", b!"5"), (b!"sprop-maxcapturerate", b!"48000")]
+
+def fmtpMpeg4audio (plid : Nat) (c : Asc) (sl il idl : Nat) : List (Str × Str) :=
+  [(b!"config", hexEncode c.enc)]
+  ++ (if idl > 0 then [(b!"indexdeltalength", dec idl)] else [])
+  ++ (if il > 0 then [(b!"indexlength", dec il)] else [])
+  ++ [(b!"mode", b!"AAC-hbr"), (b!"profile-level-id", dec (if plid = 0 then 1 else plid))]
+  ++ (if sl > 0 then [(b!"sizelength", dec sl)] else [])
+  ++ [(b!"streamtype", b!"5")]
+
+def fmtpLatm (plid : Nat) (br : Option Nat) (cp : Bool) (smc : Option Smc) (sbr : Option Bool) : List (Str × Str) :=
+  (match sbr with | some b => [(b!"SBR-enabled", boolStr b)] | none => [])
+  ++ optKV b!"bitrate" br
+  ++ (if cp then [(b!"cpresent", b!"1")] else
+      match smc with
+      | some s => [(b!"config", hexEncode s.enc), (b!"cpresent", b!"0"), (b!"object", dec s.first.typ)]
+      | none => [(b!"cpresent", b!"0")])
+  ++ [(b!"profile-level-id", dec plid)]
+
+def fmtpSpeex (vbr : Option Bool) : List (Str × Str) :=
+  match vbr with | some b => [(b!"vbr", if b then b!"on" else b!"off")] | none => []
+
 /-- `FMTP()` as the list of its entries sorted by key (the order `Media.Marshal` writes them in;
 `Media.Marshal` sorts the keys, see `sortKV` in `Session.lean`). -/
 def fmtp : Format → List (Str × Str)
   | av1 _ l p t => optKV b!"level-idx" l ++ optKV b!"profile" p ++ optKV b!"tier" t
   | vp9 _ fr fs pid => optKV b!"max-fr" fr ++ optKV b!"max-fs" fs ++ optKV b!"profile-id" pid
   | vp8 _ fr fs => optKV b!"max-fr" fr ++ optKV b!"max-fs" fs
-  | h265 _ vps sps pps mdd =>
-    (if mdd ≠ 0 then [(b!"sprop-max-don-diff", dec mdd)] else [])
-    ++ (match pps with | some b => [(b!"sprop-pps", b64 b)] | none => [])
-    ++ (match sps with | some b => [(b!"sprop-sps", b64 b)] | none => [])
-    ++ (match vps with | some b => [(b!"sprop-vps", b64 b)] | none => [])
-  | h264 _ sps pps pm =>
-    (if pm ≠ 0 then [(b!"packetization-mode", dec pm)] else [])
-    ++ (match sps with
-        | some s => if s.length ≥ 4 then [(b!"profile-level-id", hexEncodeUpper ((s.drop 1).take 3))] else []
-        | none => [])
-    ++ (match sps, pps with
-        | some s, some p => [(b!"sprop-parameter-sets", b64 s ++ 44 :: b64 p)]
-        | some s, none => [(b!"sprop-parameter-sets", b64 s)]
-        | none, some p => [(b!"sprop-parameter-sets", b64 p)]
-        | none, none => [])
-  | mpeg4video _ plid cfg =>
-    (match cfg with | some c => [(b!"config", hexEncodeUpper c)] | none => [])
-    ++ [(b!"profile-level-id", dec plid)]
-  | opus _ ch =>
-    if ch ≤ 2 then [(b!"sprop-stereo", if ch = 2 then b!"1" else b!"0")]
-    else if ch = 3 then [(b!"channel_mapping", b!"0,2,1"), (b!"coupled_streams", b!"1"), (b!"num_streams", b!"2"), (b!"sprop-maxcapturerate", b!"48000")]
-    else if ch = 4 then [(b!"channel_mapping", b!"0,1,2,3"), (b!"coupled_streams", b!"2"), (b!"num_streams", b!"2"), (b!"sprop-maxcapturerate", b!"48000")]
-    else if ch = 5 then [(b!"channel_mapping", b!"0,4,1,2,3"), (b!"coupled_streams", b!"2"), (b!"num_streams", b!"3"), (b!"sprop-maxcapturerate", b!"48000")]
-    else if ch = 6 then [(b!"channel_mapping", b!"0,4,1,2,3,5"), (b!"coupled_streams", b!"2"), (b!"num_streams", b!"4"), (b!"sprop-maxcapturerate", b!"48000")]
-    else if ch = 7 then [(b!"channel_mapping", b!"0,4,1,2,3,5,6"), (b!"coupled_streams", b!"3"), (b!"num_streams", b!"4"), (b!"sprop-maxcapturerate", b!"48000")]
-    else [(b!"channel_mapping", b!"0,6,1,4,5,2,3,7"), (b!"coupled_streams", b!"3"), (b!"num_streams", b!"5"), (b!"sprop-maxcapturerate", b!"48000")]
+  | h265 _ vps sps pps mdd => fmtpH265 vps sps pps mdd
+  | h264 _ sps pps pm => fmtpH264 sps pps pm
+  | mpeg4video _ plid cfg => fmtpMpeg4video plid cfg
+  | opus _ ch => fmtpOpus ch
   | vorbis _ _ _ cfg => [(b!"configuration", b64 (cfg.getD []))]
-  | mpeg4audio _ plid c sl il idl =>
-    [(b!"config", hexEncode c.enc)]
-    ++ (if idl > 0 then [(b!"indexdeltalength", dec idl)] else [])
-    ++ (if il > 0 then [(b!"indexlength", dec il)] else [])
-    ++ [(b!"mode", b!"AAC-hbr"), (b!"profile-level-id", dec (if plid = 0 then 1 else plid))]
-    ++ (if sl > 0 then [(b!"sizelength", dec sl)] else [])
-    ++ [(b!"streamtype", b!"5")]
-  | latm _ plid br cp smc sbr =>
-    (match sbr with | some b => [(b!"SBR-enabled", boolStr b)] | none => [])
-    ++ optKV b!"bitrate" br
-    ++ (if cp then [(b!"cpresent", b!"1")] else
-        match smc with
-        | some s => [(b!"config", hexEncode s.enc), (b!"cpresent", b!"0"), (b!"object", dec s.first.typ)]
-        | none => [(b!"cpresent", b!"0")])
-    ++ [(b!"profile-level-id", dec plid)]
-  | speex _ _ vbr => match vbr with | some b => [(b!"vbr", if b then b!"on" else b!"off")] | none => []
+  | mpeg4audio _ plid c sl il idl => fmtpMpeg4audio plid c sl il idl
+  | latm _ plid br cp smc sbr => fmtpLatm plid br cp smc sbr
+  | speex _ _ vbr => fmtpSpeex vbr
   | generic _ _ f _ => f
   | ac3 .. | g726 .. | g711 .. | lpcm .. | klv _ | mpeg1video | mjpeg | mpeg1audio | g722 | mpegts => []
 
